@@ -5,6 +5,8 @@
 (*   pos 1   "Mesh"   kind, p (integer coordinates, common scale), t          *)
 (*   [pos 2  "Basis"  elem, family, tolclass, ncomp, ndofs, edofs, y, vdof]   *)
 (*   then    "Find"   pts, res, err [, model = 1: compare with FindImpl]       *)
+(*           "FindBig" pts, res, err, hint (witness cell per point, 0 = far    *)
+(*                    outside), rank (1: report the centroid rank of pts[1])   *)
 (*           "Probe"  op, pts, cells, rows, vals, phis, ref, ferr (finder), err [, pscols, psvals] *)
 EXTENDS Locate
 
@@ -15,7 +17,7 @@ NEv    == Len(Events)
 VARIABLES i, st, bad, cnt, drift
 vars == <<i, st, bad, cnt, drift>>
 
-NoState == [m |-> <<>>, ok |-> FALSE, b |-> <<>>, seen |-> {}]
+NoState == [m |-> <<>>, ok |-> FALSE, b |-> <<>>, seen |-> {}, bb |-> <<>>]
 
 MeshWF(e) ==
   /\ e.err = ""
@@ -40,7 +42,7 @@ Eval(e, s) ==
                   ins == MeshInScope(m)
               IN [cl |-> [MeshWellFormed |-> TRUE],
                   info |-> IF ins THEN {"Info_MeshInScope"} ELSE {"Info_MeshOutOfScope"},
-                  st |-> [m |-> m, ok |-> ins, b |-> <<>>, seen |-> {}]]
+                  st |-> [m |-> m, ok |-> ins, b |-> <<>>, seen |-> {}, bb |-> IF e.big = 1 THEN BBox(m) ELSE <<>>]]
     [] e.a = "Basis" ->
          IF ~s.ok THEN [cl |-> <<>>, info |-> {"Info_Skipped"}, st |-> s]
          ELSE IF ~BasisWF(s.m, e) THEN [cl |-> [BasisWellFormed |-> FALSE], info |-> {}, st |-> [s EXCEPT !.ok = FALSE]]
@@ -66,6 +68,23 @@ Eval(e, s) ==
                                       \cup (IF imp.fallback THEN {"Info_ModelFallbackPath"} ELSE {})
                                       \cup (IF imp.fallback /\ imp.err = "" THEN {"Info_ModelFoundByFallback"} ELSE {})
                                  ELSE {}),
+                  st |-> s]
+    [] e.a = "FindBig" ->            \* large mesh: witness-based clauses (Locate: "Large meshes")
+         IF ~s.ok \/ s.bb = <<>> THEN [cl |-> <<>>, info |-> {"Info_Skipped"}, st |-> s]
+         ELSE IF ~BigWellFormed(s.m, e.pts, e.res, e.err, e.hint)
+              THEN [cl |-> [FindWellFormed |-> FALSE], info |-> {}, st |-> s]
+         ELSE IF ~WitnessContainsPoint(s.m, s.bb, e.pts, e.hint)
+              THEN [cl |-> [FindWellFormed |-> TRUE, WitnessContainsPoint |-> FALSE], info |-> {}, st |-> s]
+         ELSE LET rk == IF e.rank = 1 /\ e.hint[1] # 0 THEN WitnessRank(s.m, e.pts[1], e.hint[1]) ELSE -1
+                  kk == IF Dim(s.m.kind) = 2 THEN 5 ELSE 10
+              IN [cl |-> [FindWellFormed |-> TRUE, WitnessContainsPoint |-> TRUE,
+                          FoundCellContainsPoint |-> FoundCellContainsPointW(s.m, e.pts, e.res, e.err),
+                          PointsOfTheDomainAreFound |-> PointsOfTheDomainAreFoundW(s.m, e.pts, e.err, e.hint),
+                          BoundaryPointsAreFound |-> BoundaryPointsAreFoundW(e.err, e.hint),
+                          RaisesOutside |-> RaisesOutsideW(e.err, e.hint)],
+                  info |-> {"Info_LargeMesh"} \cup (IF e.err = "" THEN {"Info_Found"} ELSE {"Info_Raised"})
+                           \cup (IF rk >= kk THEN {"Info_WitnessBeyondCandidates"} ELSE {})
+                           \cup (IF rk >= 100 THEN {"Info_WitnessBeyond100Nearest"} ELSE {}),
                   st |-> s]
     [] e.a = "Probe" ->
          IF ~s.ok \/ s.b = <<>> THEN [cl |-> <<>>, info |-> {"Info_Skipped"}, st |-> s]
